@@ -4,6 +4,7 @@ from harness import corpus
 PROP = "C09"
 MONITORS = ("M-hist",)
 def scenarios(tier):
-    return corpus.handler_coverage_corpus() + corpus.seq_family(tier) + corpus.fanout_ok_family(tier) + corpus.fanout_fail_family(tier) + corpus.bystander_family(tier) + corpus.observability_family(tier) + corpus.child_family(tier) + corpus.history_api_family(tier)
+    # (the history lives in the memory of the instance with the default store: scenarios with a scripted crash are not history scenarios)
+    return corpus.handler_coverage_corpus() + corpus.seq_family(tier) + corpus.fanout_ok_family(tier) + corpus.fanout_fail_family(tier) + corpus.bystander_family(tier) + corpus.observability_family(tier) + [s for s in corpus.child_family(tier) if not any(st.get("op") == "crash_restart" for st in s.get("script") or [])] + corpus.history_api_family(tier)
 def run(tier, seed):
     return common.engine_check(PROP, scenarios(tier), MONITORS, tier, seed)
